@@ -798,6 +798,34 @@ fn op_check(req: &J) -> J {
     json!({"diagnostics": ds})
 }
 
+/// The fixes `check --fix` offers for a source, grouped by diagnostic.
+fn op_fixes(req: &J) -> J {
+    let src = req["src"].as_str().unwrap_or("");
+    let path = PathBuf::from(req["path"].as_str().unwrap_or("/verif.gdn"));
+    let Some(fixes) = crate::syntax_check::verif_collect_fixes(&path, src) else {
+        return json!({"parse_errors": true, "fixes": []});
+    };
+    // One entry per diagnostic: [message, [[start, end, new_text, description], ...]].
+    let fixes_json: Vec<J> = fixes
+        .iter()
+        .map(|(msg, group)| {
+            let group_json: Vec<J> = group
+                .iter()
+                .map(|f| {
+                    json!([
+                        f.position.start_offset,
+                        f.position.end_offset,
+                        f.new_text,
+                        f.description
+                    ])
+                })
+                .collect();
+            json!([msg, group_json])
+        })
+        .collect();
+    json!({"fixes": fixes_json})
+}
+
 fn dispatch(req: &J) -> J {
     match req["op"].as_str().unwrap_or("") {
         "lex" => op_lex(req),
@@ -810,6 +838,7 @@ fn dispatch(req: &J) -> J {
         "run" => op_run(req),
         "refactor" => op_refactor(req),
         "check" => op_check(req),
+        "fixes" => op_fixes(req),
         other => json!({"unsupported": other}),
     }
 }
